@@ -259,6 +259,22 @@ def lexical_escape(dest, members):
     return False
 
 
+def regular_archive(dest, members):
+    """no member lies below or on top of a non-directory member and hard links point at file members: for
+    other archives tarfile silently skips what it cannot create (ExtractError is not fatal at errorlevel 1)"""
+    paths = [os.path.normpath(os.path.join(dest, n)) for n, _, _ in members]
+    for i, (n, k, l) in enumerate(members):
+        for j, (n2, k2, l2) in enumerate(members):
+            if i != j and (k2 != 'dir' or k != 'dir') and (paths[i] + os.sep).startswith(paths[j] + os.sep) and \
+                    (k2 != 'dir' or paths[i] == paths[j]):
+                return False
+        if k == 'hard':
+            t = os.path.normpath(os.path.join(dest, l))
+            if not any(paths[j] == t and members[j][1] == 'file' for j in range(len(members)) if j != i):
+                return False
+    return True
+
+
 NAMES_OK = ['x.txt', 'a/x.txt', 'a/b/y.dat', './z', 'dir/', 'a/', 'conf/c.yaml', 'w' * 120 + '/long.txt', 'a/b/', 'q q']
 NAMES_BAD = ['../escaped.txt', '../../x', 'a/../../x', 'a/b/../../../x', '../work2/x', '../work/../work2/keep.txt',
              SB + '/out/abs.txt', SB + '/t/work2/abs.txt', '/' + SB + '/t/work/dbl.txt', '../../out/secret.txt',
@@ -398,9 +414,11 @@ def run_tar_case(ctx, raw_members, via_job, pre_link=None, fmt=tarfile.GNU_FORMA
         if exc is None:
             inside = listing(sb.work)
             lst = sorted(inside)
-        term = '(%s, %s, %s, %s)' % (csegs(sb.canonical(sb.work)),
-                                     clist([(sb.canonical(n), k, sb.canonical(l)) for (n, k, l) in seen], cmember),
-                                     cbool(accepted), '(@None (list (list string)))' if lst is None else copt(lst, lambda l: clist(l, csegs)))
+        regular = regular_archive(sb.work, seen)
+        ctx.count('tar:regular' if regular else 'tar:irregular')
+        term = '(%s, %s, %s, %s, %s)' % (csegs(sb.canonical(sb.work)),
+                                         clist([(sb.canonical(n), k, sb.canonical(l)) for (n, k, l) in seen], cmember),
+                                         cbool(accepted), cbool(regular), '(@None (list (list string)))' if lst is None else copt(lst, lambda l: clist(l, csegs)))
         ctx.sample({'archive': canon['members'][:5], 'accepted': accepted, 'error': ename, 'entries': lst[:6] if lst else lst})
         return (term, canon, {'accepted': accepted, 'error': ename, 'entries': lst})
     finally:
